@@ -87,7 +87,8 @@ class CoPopen(subprocess.Popen):
         super().__init__(*a, **k)
         # Popen's own reaping (poll/wait) is traced too - xonsh reaps the same child out of band with
         # os.waitpid - so its lock must be cooperative
-        self._waitpid_lock = pysched.CoLock()
+        if pysched.active() is not None:
+            self._waitpid_lock = pysched.CoLock()
         # spawning is made synchronous: the child's start-up time must not decide when its
         # announcement becomes visible to the puppeteer
         if _AFTER_SPAWN[0] is not None:
@@ -135,7 +136,7 @@ def _setup():
     X.time = pysched.time_shim()
     PO.time = pysched.time_shim()
     PI.threading = pysched.threading_shim()
-    PO.threading = pysched.ShimModule(threading, Lock=pysched.CoLock, RLock=pysched.CoRLock, Condition=pysched.CoCondition, Event=pysched.CoEvent)
+    PO.threading = pysched.threading_shim()
     PO.subprocess = pysched.ShimModule(subprocess, Popen=CoPopen)
     SP.subprocess = pysched.ShimModule(subprocess, Popen=CoPopen)
     import xonsh.procs.jobs as J
